@@ -72,7 +72,7 @@ impl<K, V> LinkedHashMap<K, V> {
     #[verifier::external_body] pub fn values(&self) -> (r: core::slice::Iter<'_, V>)
         ensures r.remaining() == refs(self.vals()), r.obeys_prophetic_iter_laws(), r.decrease() is Some { unimplemented!() }
 }
-opaque_types!(InputsMap, BootstrapSet);
+opaque_types!(InputsMap, BootstrapSet, TxBuilderInput);
 
 // Plutus language of a script source (C09)
 clone_eq!(Language, PlutusScript);
@@ -86,3 +86,11 @@ impl PartialEq for Language { #[verifier::external_body] fn eq(&self, o: &Langua
 impl Eq for Language {}
 impl PartialOrd for Language { #[verifier::external_body] fn partial_cmp(&self, o: &Language) -> Option<core::cmp::Ordering> { unimplemented!() } }
 impl Ord for Language { #[verifier::external_body] fn cmp(&self, o: &Language) -> core::cmp::Ordering { unimplemented!() } }
+
+impl InputsMap {
+    /// the outpoint is registered, and registered as a script input (the Option<ScriptHash> stored with it is Some)
+    pub uninterp spec fn scripted(&self, k: TransactionInput) -> bool;
+    /// BTreeMap::get on the input map, as far as this unit looks at the result: whether a script hash is stored with the input
+    #[verifier::external_body] pub fn get(&self, k: &TransactionInput) -> (r: Option<&(TxBuilderInput, Option<ScriptHash>)>)
+        ensures (r is Some && r->Some_0.1 is Some) == self.scripted(*k) { unimplemented!() }
+}
